@@ -9,6 +9,20 @@ import (
 	"github.com/bytemare/secp256k1"
 )
 
+func cloneOrNil(b []byte) []byte {
+	if b == nil {
+		return nil
+	}
+	return append([]byte{}, b...)
+}
+
+// record returns msg and dst as adjacent windows of ONE buffer, as a caller parsing a received record
+// would pass them: msg = rec[:n] has spare capacity that runs over dst = rec[n:].
+func record(msg, dst []byte) ([]byte, []byte) {
+	rec := append(append(make([]byte, 0, len(msg)+len(dst)+8), msg...), dst...)
+	return rec[:len(msg)], rec[len(msg):]
+}
+
 func orEmpty(b []byte) []byte {
 	if b == nil {
 		return []byte{}
@@ -17,6 +31,7 @@ func orEmpty(b []byte) []byte {
 }
 
 func (m *M) EHashToGroup(r int, msg, dst []byte) {
+	msg0, dst0 := cloneOrNil(msg), cloneOrNil(dst) // what the caller passed, as it was BEFORE the call
 	cert, cls := h2cCert(msg, dst, true)
 	m.class("gx1:" + cls)
 	var out *secp256k1.Element
@@ -24,10 +39,11 @@ func (m *M) EHashToGroup(r int, msg, dst []byte) {
 	if !panicked {
 		m.E[r] = out
 	}
-	m.emit("EHashToGroup", kv{"r", r + 1}, kv{"msg", orEmpty(msg)}, kv{"dst", orEmpty(dst)}, kv{"cert", cert}, kv{"panic", panicked})
+	m.emit("EHashToGroup", kv{"r", r + 1}, kv{"msg", orEmpty(msg0)}, kv{"dst", orEmpty(dst0)}, kv{"cert", cert}, kv{"panic", panicked})
 }
 
 func (m *M) EEncodeToGroup(r int, msg, dst []byte) {
+	msg0, dst0 := cloneOrNil(msg), cloneOrNil(dst) // what the caller passed, as it was BEFORE the call
 	cert, cls := h2cCert(msg, dst, false)
 	m.class("gx1:" + cls)
 	var out *secp256k1.Element
@@ -35,16 +51,17 @@ func (m *M) EEncodeToGroup(r int, msg, dst []byte) {
 	if !panicked {
 		m.E[r] = out
 	}
-	m.emit("EEncodeToGroup", kv{"r", r + 1}, kv{"msg", orEmpty(msg)}, kv{"dst", orEmpty(dst)}, kv{"cert", cert}, kv{"panic", panicked})
+	m.emit("EEncodeToGroup", kv{"r", r + 1}, kv{"msg", orEmpty(msg0)}, kv{"dst", orEmpty(dst0)}, kv{"cert", cert}, kv{"panic", panicked})
 }
 
 func (m *M) SHashToScalar(r int, msg, dst []byte) {
+	msg0, dst0 := cloneOrNil(msg), cloneOrNil(dst)
 	var out *secp256k1.Scalar
 	panicked, _ := catch(func() { out = secp256k1.HashToScalar(msg, dst) })
 	if !panicked {
 		m.S[r] = out
 	}
-	m.emit("SHashToScalar", kv{"r", r + 1}, kv{"msg", orEmpty(msg)}, kv{"dst", orEmpty(dst)}, kv{"panic", panicked})
+	m.emit("SHashToScalar", kv{"r", r + 1}, kv{"msg", orEmpty(msg0)}, kv{"dst", orEmpty(dst0)}, kv{"panic", panicked})
 }
 
 // ---------------------------------------------------------------- Scalar.Random over a scripted entropy source
@@ -227,6 +244,19 @@ func genC08(m *M, budget int) {
 			msg, dst := m.msgOf(ml), m.dstOf(dl)
 			m.class("msglen:" + itoa(ml))
 			m.class("dstlen:" + itoa(dl))
+			switch i % 4 {
+			case 1: // both are windows of one received record; the message's spare capacity overlaps the DST
+				if msg != nil {
+					msg, dst = record(msg, dst)
+					m.class("layout:one_record")
+				}
+			case 2: // spare capacity behind both
+				if msg != nil {
+					msg = append(make([]byte, 0, len(msg)+40), msg...)
+				}
+				dst = append(make([]byte, 0, len(dst)+40), dst...)
+				m.class("layout:spare_capacity")
+			}
 			if m.rng.Intn(2) == 0 {
 				m.EHashToGroup(m.rng.Intn(2), msg, dst)
 				if m.rng.Intn(4) == 0 { // deterministic: same inputs again, into another variable
@@ -259,7 +289,12 @@ func genC09(m *M, budget int) {
 			i++
 			m.class("msglen:" + itoa(ml))
 			m.class("dstlen:" + itoa(dl))
-			m.SHashToScalar(m.rng.Intn(2), m.msgOf(ml), m.dstOf(dl))
+			msg, dst := m.msgOf(ml), m.dstOf(dl)
+			if i%3 == 1 && msg != nil {
+				msg, dst = record(msg, dst)
+				m.class("layout:one_record")
+			}
+			m.SHashToScalar(m.rng.Intn(2), msg, dst)
 		}
 		if m.rng.Intn(2) == 0 {
 			m.SHashToScalar(0, m.msgOf(3), nil)
